@@ -31,7 +31,8 @@ class C11(LZCheckMixin, PropertyCheck):
             "overlapping copies, both LZ11 header forms, through the four entry points (LZ10, LZ13, and both through CompressionFormat), "
             "wrapped (0x13), bare and stored (type 0); every truncation of such streams (quick: of a sample), single-byte corruptions, "
             "left-over bytes, overshooting last token, random bytes with plausible headers; announced size < 1 MiB, plus LZ11 streams announcing "
-            "0xFFFFFF (plain / extended form) and 0x1000000 (extended form) and their truncations (output compared by length and FNV-64). "
+            "0xFFFFFF (plain / extended form) and 0x1000000 (extended form) and their truncations, LZ11 streams with a token section of more than "
+            "261 060 bytes (output compared by length and FNV-64). "
             "Non-trivial = the stream is well-formed and contains a back-reference, or is one of the named error classes; distinct = distinct case.")
     assumptions = ["A-std: Vec, iterators and integer casts behave as documented",
                    "the output Vec is represented by its reversed list in the model"]
@@ -149,6 +150,15 @@ class C11(LZCheckMixin, PropertyCheck):
             cases.append(Case("lzd %s 2 %s" % (entry, hexb((bytes([0x13, 1, 2, 3]) if wrap else b"") + s)), "size-boundary-16MiB"))
             # ... and the same stream cut short by one byte must be an error
             cases.append(Case("lzd %s 2 %s" % (entry, hexb((bytes([0x13, 1, 2, 3]) if wrap else b"") + s[:-1])), "size-boundary-16MiB"))
+        # --- a long token section (seeded C11-5: `token_bytes * expansion` computed in u32 overflows for LZ11 streams with more
+        #     than 261 060 token bytes): 232 056 / 240 000 literal bytes = 261 063 / 270 000 token bytes, bare and wrapped,
+        #     through the LZ13 entry, the enum and the LZ10 entry (which decodes 0x11 streams too); compact form
+        #     header + P<len>:<flag byte 00 + eight literals>
+        for nlit, entry, wrap in ((232056, "13", False), (232056, "13", True), (240000, "f13", True), (232056, "10", False), (232056, "f10", False)):
+            lits = rand_bytes(rng, 8)
+            hdr = bytes([0x11]) + nlit.to_bytes(3, "little")
+            tok = "%s+P%d:00%s" % (hexb((bytes([0x13, 9, 9, 9]) if wrap else b"") + hdr), nlit // 8 * 9, lits.hex())
+            cases.append(Case("lzd %s 2 %s" % (entry, tok), "long-token-section"))
         # --- large outputs (implementation + oracle only): long-form references up to the announced size limit
         nbig = 6 if tier == "quick" else 40
         for _ in range(nbig):
